@@ -1,4 +1,5 @@
 import Pi2.TrackerThm
+import Pi2.SerTie
 /-!
 # C04 — the generator-side verifier state is a faithful simulation of the real machine
 
@@ -63,5 +64,12 @@ theorem publish_leaves_residue (n : Nat) (s s' : PySt) (c : Call)
 /-! Non-vacuity: the empty tracker and the empty machine are related, and a first call keeps them so -/
 example : R (PySt.init []) ⟨[], [], []⟩ := ⟨rfl, rfl, fun h => by cases h⟩
 example : PySt.track1 5 (PySt.init []) .prop1 = some (some ((PySt.init []).push (.proved PySt.prop1N))) := rfl
+
+/-- what `SerializingInterpreter` writes, as written in `serializing_interpreter.py` (translated on every run), is the
+byte encoding of what the model's `emit1` emits, call by call -/
+theorem serializer_bytes_tied (n : Nat) (s : PySt) (c : Call) (is : List Instr)
+    (h : PySt.emit1 n s c = some (some is)) :
+    Gen.Ser.translated = true ∧ ∃ memIdx, encode is = SerTie.bytesOfCall s memIdx c :=
+  ⟨SerTie.translated, SerTie.emit_is_serializer n s c is h⟩
 
 end C04
